@@ -16,6 +16,7 @@ package c01
 import (
 	"context"
 	"fmt"
+	"sort"
 	"strconv"
 	"sync"
 
@@ -298,6 +299,13 @@ func (s *memStore) IndexRepositories(ctx context.Context, repos []*claircore.Rep
 	s.mu.Lock()
 	defer s.mu.Unlock()
 	ls := layerScan{layer.Hash.String(), skey(scnr)}
+	// the rhel repository scanner hands over its CPEs in map order; ids and row order must be a
+	// function of the seed
+	repos = append([]*claircore.Repository(nil), repos...)
+	sort.Slice(repos, func(i, j int) bool {
+		a, b := repos[i], repos[j]
+		return a.Name+"\x00"+a.Key+"\x00"+a.URI < b.Name+"\x00"+b.Key+"\x00"+b.URI
+	})
 	for _, r := range repos {
 		k := [3]string{r.Name, r.Key, r.URI}
 		id, ok := s.repoIDs[k]
